@@ -13,6 +13,11 @@ import (
 )
 
 func rewriteMetadata(p string, stat *types.Stat) error {
+	if err := os.Lchown(p, int(stat.Uid), int(stat.Gid)); err != nil {
+		return errors.WithStack(err)
+	}
+
+	// after the chown: changing the owner drops file capabilities
 	for key, value := range stat.Xattrs {
 		if err := sysx.LSetxattr(p, key, value, 0); err != nil && os.IsPermission(err) && os.FileMode(stat.Mode)&os.ModeSymlink == 0 && stat.Linkname == "" {
 			// retry after chmod: the owner of a read-only entry may not
@@ -23,10 +28,6 @@ func rewriteMetadata(p string, stat *types.Stat) error {
 				sysx.LSetxattr(p, key, value, 0)
 			}
 		}
-	}
-
-	if err := os.Lchown(p, int(stat.Uid), int(stat.Gid)); err != nil {
-		return errors.WithStack(err)
 	}
 
 	if os.FileMode(stat.Mode)&os.ModeSymlink == 0 {
